@@ -149,7 +149,9 @@ theorem fam_no_match_noop (cfg : Cfg) (now : Int) (c c1 c' : Coll) (fs : Fields)
     split at h
     · split at h
       · cases h
-      · exact h
+      · split at h
+        · cases h
+        · exact h
     · exact h
   unfold findAndModify.go at hgo
   rw [findOne_eq now c c1 fs .null sort [] he hne hs] at hgo
